@@ -387,6 +387,12 @@ def prop_task(draw, w, th, models, wild=False):
     top = th.bodies[-1] if th.bodies else None
     acts = ["x", "x", "p", "r", "e"]
     a = draw(st.sampled_from(acts))
+    if a == "p" and getattr(w, "no_bare_pause", False):
+        ss = th.q.get((m, "subsystem"))
+        if ss and ss[-1] == R.L(R.L_TASK_BODY[m]):
+            # known finding C20/bare-task-pause: pause only inside a region above the body
+            w.excluded_known = getattr(w, "excluded_known", 0) + 1
+            return None
     if not wild and top is not None and top.task in tasks.values():
         if top.state == "running" and a in ("p", "e"):
             return (m + "T" + a, _tp(m, top.task.id, top.id), 0)
@@ -526,6 +532,7 @@ def history(draw, prof):
     models = tr["_models"]
     lint = prof.lint if isinstance(prof.lint, bool) else draw(st.booleans())
     w = Walk(draw, tr, lint=lint)
+    w.no_bare_pause = getattr(prof, "no_bare_pause", False)
     ths = w.threads()
     n = draw(st.integers(*prof.steps))
     mode = draw(st.sampled_from(prof.modes))
@@ -560,4 +567,5 @@ def history(draw, prof):
     flags = list(prof.flags) if prof.flags is not None else (["-l"] if lint else [])
     tr["_flags"] = flags
     tr["_mode"] = mode
+    tr["_excluded_known"] = getattr(w, "excluded_known", 0)
     return tr
